@@ -103,11 +103,18 @@ static __attribute__((noinline)) spif_charptr_t call_expand(spif_charptr_t s, in
     return spifconf_shell_expand(s);
 }
 
+static unsigned char *xr_block(void) {
+    static unsigned char *blk;
+    if (!blk) blk = (unsigned char *) malloc(CONFIG_BUFF);
+    return blk;
+}
+
 /* one run; returns malloc'ed copy of the result (len in *rn), NULL pointer result -> *isnull = 1.
  * problem (static string) or NULL */
 static const char *run_once(const bl_t *in, int exact, int pat, bl_t *res, int *isnull) {
     size_t size = exact ? in->n + 1 : (size_t) CONFIG_BUFF;
-    unsigned char *blk = (unsigned char *) malloc(size), *end; spif_charptr_t r;
+    /* the CONFIG_BUFF block is allocated once and reused (20 kB blocks through ASan's quarantine are slow) */
+    unsigned char *blk = exact ? (unsigned char *) malloc(size) : xr_block(), *end; spif_charptr_t r;
     const char *bad = NULL;
     if (!exact) memset(blk, pat, size);
     memcpy(blk, in->p, in->n); blk[in->n] = 0;
@@ -123,7 +130,7 @@ static const char *run_once(const bl_t *in, int exact, int pat, bl_t *res, int *
         memcpy(res->p, blk, res->n + 1);
         if (res->n > (size_t) CONFIG_BUFF - 1) bad = "result-longer-than-the-limit";
     }
-    free(blk);
+    if (exact) free(blk);
     return bad;
 }
 
@@ -156,8 +163,8 @@ static size_t project_store(vh_sb *state) {
     int i, first = 1; size_t foot = 0;
     sb_putc(state, '[');
     for (i = 0; i < xr_nkeys; i++) {
-        unsigned char *blk = (unsigned char *) malloc(CONFIG_BUFF); spif_charptr_t r; size_t n;
-        memset(blk, 0x5A, CONFIG_BUFF);
+        unsigned char *blk = xr_block(); spif_charptr_t r; size_t n;
+        memset(blk, 0x5A, 64 + xr_keys[i].n);
         memcpy(blk, "%get(", 5); memcpy(blk + 5, xr_keys[i].p, xr_keys[i].n); memcpy(blk + 5 + xr_keys[i].n, ")", 2);
         { size_t hb = vh_heap(); r = spifconf_shell_expand((spif_charptr_t) blk); xr_growth += (long) vh_heap() - (long) hb; }
         if (r && (n = strlen((char *) blk)) > 0) {
@@ -167,7 +174,6 @@ static size_t project_store(vh_sb *state) {
             sb_bytes(state, blk, n); sb_putc(state, ']');
             foot += 3 * sizeof(void *) + xr_keys[i].n + 1 + n + 1;      /* spifconf_var_t + key + value */
         }
-        free(blk);
     }
     sb_putc(state, ']');
     return foot;
@@ -192,6 +198,7 @@ static const char *vh_step(const vh_step_t *st, vh_sb *ret, vh_sb *state) {
     int nouts = 0, claimed = 0, trunc = 0, record, value_ok, rnd, i, nruns = 0, isnull[3] = {0, 0, 0}, put, exact_ok = 0;
     const char *bad = NULL, *badv = "", *p; unsigned long hin = 1469598103934665603UL;
     const char *vname[3] = {"", "", ""};
+    long g0 = xr_growth;
 
     if (strcmp(st->op, "expand") || st->nargs != 2) return "bad-step";
     set_environment(st->args[0], &hin);
@@ -267,10 +274,11 @@ static const char *vh_step(const vh_step_t *st, vh_sb *ret, vh_sb *state) {
     value_ok = record || !strcmp(ret->p, st->exp_ret);
     if (!record && !strcmp(st->exp_state, "UNKNOWN")) sb_puts(state, "UNKNOWN");
     else {
+        size_t f0 = xr_footprint;
         xr_footprint = project_store(state);
-        /* C06 inside C10's calls: the heap may only have grown by what the store holds */
-        if (vh_check_heap && value_ok && xr_growth != (long) xr_footprint) {
-            snprintf(xr_msg, sizeof(xr_msg), "heap-growth=%ld-store-holds=%lu", xr_growth, (unsigned long) xr_footprint);
+        /* C06 inside C10's calls: the heap may only have grown by what was added to the store in this step */
+        if (vh_check_heap && value_ok && xr_growth - g0 != (long) xr_footprint - (long) f0) {
+            snprintf(xr_msg, sizeof(xr_msg), "heap-growth=%ld-store-growth=%ld", xr_growth - g0, (long) xr_footprint - (long) f0);
             return xr_msg;
         }
     }
@@ -400,8 +408,6 @@ int main(int argc, char **argv) {
                 vh_begin();
                 abandoned = run_steps(steps, n, &ret, &state, &cs, sh);
                 vh_end();
-                if (vh_check_heap && !abandoned && xr_growth != (long) xr_footprint && strcmp(steps[n - 1].exp_state, "UNKNOWN"))
-                    printf("X %ld %d heap end exp=%lu got=%ld\n", vh_cur_sid, n, (unsigned long) xr_footprint, xr_growth);
                 fflush(stdout); if (xr_ulog) fflush(xr_ulog);
                 _exit(0);
             }
@@ -423,8 +429,6 @@ int main(int argc, char **argv) {
         vh_end();
         alarm(0);
         vh_in_script = 0;
-        if (vh_check_heap && !abandoned && xr_growth != 0)
-            printf("X %ld %d heap end exp=0 got=%ld\n", vh_cur_sid, n, xr_growth);
     }
     printf("DONE %ld %ld\n", nscripts, nsteps);
     vh_in_script = 0;
